@@ -393,6 +393,9 @@ def opaque_isinstance(o: Opaque, classes):
         else:
             flat.append(c)
     classes = tuple(flat)
+    if o.props.get("any_constant") and (o.cands is None or o.cands == frozenset([object])):
+        # the value of a source Constant node: one of the constant classes of the language
+        o.cands = frozenset([str, bytes, int, float, complex, bool, type(None), type(Ellipsis)])
     if o.cands is None:
         if o.cls is not None and isinstance(o.cls, type):
             return issubclass(o.cls, classes)
@@ -417,6 +420,8 @@ def opaque_isinstance(o: Opaque, classes):
 
 
 def opaque_type(o: Opaque):
+    if o.props.get("any_constant") and (o.cands is None or o.cands == frozenset([object])):
+        o.cands = frozenset([str, bytes, int, float, complex, bool, type(None), type(Ellipsis)])
     if o.cands is None:
         if isinstance(o.cls, type):
             return o.cls
@@ -855,6 +860,8 @@ def str_method(obj, name, args, kwargs):
         if isinstance(lst, Opaque) and isinstance(lst.tag, tuple) and len(lst.tag) == 3 and lst.tag[0] == "split" and isinstance(obj, str):
             # sep2.join(s.split(sep)) == s.replace(sep, sep2)
             src = lst.props.get("source")
+            if src is not None and lst.tag[2] is None:
+                return Tmpl([Fn("join-of-whitespace-split", src, (obj,))])   # not the same text as src in general
             if src is not None:
                 return t_replace(src, lst.tag[2], obj)
         raise Unsupported("join over non-list")
@@ -877,6 +884,11 @@ def str_method(obj, name, args, kwargs):
             out.append(to_str(a))
             out.append(p)
         return tcat(*out)
+    if name == "split" and not args and not kwargs and isinstance(obj, Hole):
+        # split on runs of whitespace: only usable through join (below)
+        n = z3.Int(f"wspieces({tagstr(obj.tag)})")
+        ctx().assume(n >= 0)
+        return Opaque(("split", obj.tag, None), list, len=lambda o: SInt(n), truthy=None, source=obj)
     if name == "split" and len(args) == 1 and isinstance(args[0], str) and isinstance(obj, Hole):
         # number of pieces is unknown (>= 1); pieces are unknown strings
         n = z3.Int(f"pieces({tagstr(obj.tag)},{args[0]!r})")
